@@ -54,11 +54,12 @@ let handle line =
           let cost m = m in
           let sched = List.map (fun x -> nat_of_int (int_of_string x)) (words sched) in
           let s = run0 body cost (init0 todos) sched in
-          let got r =
-            String.concat "," (List.map (fun (m, v) -> Printf.sprintf "%d:%d" (int_of_nat m) (int_of_nat v)) (List.rev (got (reqs s (nat_of_int r))))) in
+          let got_of r =
+            let q = s.reqs (nat_of_int r) in
+            String.concat "," (List.map (fun (m, v) -> Printf.sprintf "%d:%d" (int_of_nat m) (int_of_nat v)) (List.rev q.got)) in
           let mods = List.sort_uniq compare (List.concat (List.map (List.map int_of_nat) lists)) in
           Printf.sprintf "got=%s evals=%s complete=%s"
-            (String.concat ";" (List.init n got))
+            (String.concat ";" (List.init n got_of))
             (String.concat "," (List.map (fun m -> Printf.sprintf "%d:%d" m (int_of_nat (eval_count s (nat_of_int m)))) mods))
             (b (all_complete s (nat_of_int n)))
         | _ -> failwith "once: expected <todo lists> | <schedule>")
